@@ -354,3 +354,30 @@ def _rooted_self(body, p, self_local):
 
 
 from .facts import pl_field_owners
+
+
+def loop_early_exits(b, action_bb):
+    """switch edges inside the loop that contains action_bb which leave the loop without going through the iterator's own None test
+    (break / return inside the body). Returns [(src, dst)]; [] when the loop scans every element. None if no enclosing loop is found."""
+    from . import cfg
+    nxt_all = [x.bb for x in b.calls(r'Iterator>::next$')]
+    loop_next = [n for n in nxt_all if action_bb in cfg.reach_from(b, [n]) and n in cfg.reach_from(b, [action_bb])]
+    if not loop_next:
+        return None
+    body = set(x for x in cfg.reach_from(b, loop_next) if any(n in cfg.reach_from(b, [x]) for n in loop_next))
+    out = []
+    for (src, dst, lab, term) in cfg.switch_edges(b):
+        if src not in body:
+            continue
+        dd = cfg.describe_operand(b, term['discr'])
+        if dd['k'] == 'discr':
+            pdd = cfg.describe_operand(b, {'cp': dd['pl']})
+            if pdd['k'] == 'call' and pdd['bb'] in loop_next:
+                continue    # the iterator's own Some/None test
+        if dst in body:
+            continue
+        # leaves the loop: tolerate edges that only lead to unreachable / panics (no return reachable)
+        if not (set(b.return_blocks()) & cfg.reach_from(b, [dst])):
+            continue
+        out.append((src, dst))
+    return out
